@@ -484,9 +484,10 @@ def pred_script(c, o):
                 continue
             if w in src_of and src_of[w] != s:
                 bad.append({"failed": f"slot {s} reads from {w} but {w} reads from {src_of[w]}: sub-streams are not paired"})
-            if open_round.get(s) != open_round.get(w):
-                bad.append({"failed": f"slot {s} (established in round {open_round.get(s)}) received data of slot {w} "
-                                      f"(established in round {open_round.get(w)}): data crossed incarnations"})
+            acc, con = (s, w) if a["kind"] == 0 else (w, s)
+            if open_round.get(acc, 1 << 60) > open_round.get(con, -1):
+                bad.append({"failed": f"accept-side slot {acc} (established in round {open_round.get(acc)}) is paired with connect-side slot {con} "
+                                      f"(established in round {open_round.get(con)}): the connecting side cannot be established first"})
         seen = {}
         for s, w in src_of.items():
             if w in seen:
